@@ -48,7 +48,7 @@ impl Property for C05 {
         "C05"
     }
     fn rule(&self) -> &'static str {
-        "profile `expansion`: programs whose rows hold 0-3 `C` and 0-5 `X` in input-bound columns at any position, X/Z in expected columns, literals, (expr) and bits() in between, at loop depth 0-3, multi-bit and bidirectional inputs, permuted headers, both driver types; in a third of the cases the driver fails on one call and the caller goes on (the failed item keeps its position in the expansion, represented by the vector the driver received); every row statement carries a tag in a dedicated input column. Oracle (self-consistent): the items are cut into runs of equal tag; each run must consist of whole evaluations of g = 2^k x (3 if C else 1) items; within an evaluation item number p belongs to assignment a = p / phases, phase p % phases: the j-th X column from the left holds bit j of a, every C column holds 0,1,0 over the phases, only the last phase is checked (outputs non-empty) and is sent with the output-reading method, the other phases with the write-only method (as seen by an overriding driver), every other input and every expected value is the same in all items of the evaluation, expected columns holding a literal X / Z report X / Z, and the driver received exactly row.inputs. Non-trivial: an evaluation with >= 2 X, or >= 2 C, or both C and X was checked; distinct by source + signals + driver."
+        "profile `expansion`: programs whose rows hold 0-3 `C` and 0-5 `X` in input-bound columns at any position, X/Z in expected columns, literals, (expr) and bits() in between, at loop depth 0-3, multi-bit and bidirectional inputs, permuted headers that may leave signals out, both driver types; in a third of the cases the driver fails on one call and the caller goes on (the failed item keeps its position in the expansion, represented by the vector the driver received); every row statement carries a tag in a dedicated input column. Oracle (self-consistent): the items are cut into runs of equal tag; each run must consist of whole evaluations of g = 2^k x (3 if C else 1) items; within an evaluation item number p belongs to assignment a = p / phases, phase p % phases: the j-th X column from the left holds bit j of a, every C column holds 0,1,0 over the phases, only the last phase is checked (outputs non-empty) and is sent with the output-reading method, the other phases with the write-only method (as seen by an overriding driver), every other input and every expected value is the same in all items of the evaluation, expected columns holding a literal X / Z report X / Z, and the driver received exactly row.inputs. Non-trivial: an evaluation with >= 2 X, or >= 2 C, or both C and X was checked; distinct by source + signals + driver."
     }
     fn cases(&self, tier: Tier) -> u64 {
         match tier {
@@ -57,11 +57,14 @@ impl Property for C05 {
         }
     }
     fn required_classes(&self) -> Vec<&'static str> {
-        vec!["C+X-row", "clock-triple", "x-expansion", "row>=2X", "row>=2C", "overriding-driver", "defaulting-driver", "expansion-in-loop", "literal-expected-X", "literal-expected-Z", "repeat-expansion", "expansion-item-after-driver-failure"]
+        vec!["C+X-row", "clock-triple", "x-expansion", "row>=2X", "row>=2C", "overriding-driver", "defaulting-driver", "expansion-in-loop", "literal-expected-X", "literal-expected-Z", "repeat-expansion", "expansion-item-after-driver-failure", "input-without-column"]
     }
     fn run(&self, s: &Streams) -> CaseOut {
         let mut out = CaseOut::new();
-        let cfg = expansion_cfg();
+        let mut cfg = expansion_cfg();
+        // the header may leave signals out: an input that has no column keeps its default, an
+        // expected column is still never expanded
+        cfg.omit_cols = true;
         let mut built = gen_case(&mut Ch::new(&s[0]), &cfg);
         let rows = instrument(&mut built, &mut Ch::new(&s[1]), 0, ProbePref::Vars, &[]);
         let text = built_text(&built);
@@ -79,6 +82,7 @@ impl Property for C05 {
         render_case(&mut out, &text, &built.sigs, Some(&spec));
         let f = feats(&built);
         feat_classes(&mut out, &f);
+        out.class_if(built.sigs.iter().any(|s| s.is_input() && s.name != "TAG" && !built.prog.header.contains(&s.name)), "input-without-column");
         out.class(if spec.override_write { "overriding-driver" } else { "defaulting-driver" });
         let Some(tc) = load_wellformed(&mut out, "c05", &text, &built.sigs) else {
             return out;
